@@ -497,6 +497,30 @@ class World:
         self.fault("helper_call")
         self._event(op, out, None)
 
+    def op_table(self, op):
+        """C16: every row of the tabulated planner's table against the
+        memoised planner (n_i <= n, 1 <= s_i <= min(s, n_i - 1))."""
+        _, n, sn = op
+        lib()
+        mixed = sys.modules["checkpoint_schedules.mixed"]
+        try:
+            tab = mixed.mixed_steps_tabulation(n, sn)
+            rows = 0
+            bad = None
+            for n_i in range(2, n + 1):
+                for s_i in range(1, min(sn, n_i - 1) + 1):
+                    a = [int(x) for x in tab[n_i, s_i]]
+                    b = [int(x) for x in
+                         mixed.mixed_step_memoization(n_i, s_i)]
+                    rows += 1
+                    if a != b and bad is None:
+                        bad = [n_i, s_i, a, b]
+            out = ["rows", rows, bad]
+        except Exception as e:                      # noqa: BLE001
+            out = ["raise", type(e).__name__, str(e)[:80]]
+        self.calls.append((op, out))
+        self._event(op, out, None)
+
     # -- C08 monitor ---------------------------------------------------------
     def _counters(self, s, after):
         sc, m = s.sched, s.machine
